@@ -41,6 +41,18 @@ RAW_SUFFIXES = (' as rr_iterator::DNSIterable>::raw', ' as rr_iterator::DNSItera
                 ' as rr_iterator::DNSIterable>::parsed_packet')
 
 
+def _checked_dec(f, defs, rv):
+    """is this value the payload of `rrs_left.checked_sub(1)` (reached through the `?` plumbing)?"""
+    if rv['k'] != 'use':
+        return False
+    for r in F.roots(f, defs, rv['x']):
+        if r[0] == 'call' and str(r[1]).endswith('::checked_sub') and len(r[2]['args']) == 2:
+            a, b = F.expr(f, defs, r[2]['args'][0]), F.expr(f, defs, r[2]['args'][1])
+            if F.is_load_of(a, RRI, 'rrs_left') and b == ('const', 1):
+                return True
+    return False
+
+
 def classify_store(f, defs, s):
     """'advance' | 'decrement' | 'reinit' | 'invalidate' | 'set' | None for an assignment statement."""
     lf = F.last_field(s['place'])
@@ -55,6 +67,8 @@ def classify_store(f, defs, s):
         e = F.expr_rv(f, defs, s['rv'])
         if e[0] == 'binop' and e[1] == 'Sub' and F.is_load_of(e[2], RRI, 'rrs_left') and e[3] == ('const', 1):
             return 'decrement'
+        if _checked_dec(f, defs, s['rv']):
+            return 'decrement'          # rrs_left = rrs_left.checked_sub(1)?  (None, i.e. the count was 0, left the function)
         return 'reinit'
     return None
 
@@ -81,6 +95,9 @@ class Pairing(Automaton):
 def guard_of_decrement(f, defs, bi):
     """Is block `bi` dominated by the non-zero edge of a `rrs_left == 0` test?"""
     dom = F.dominators(f)
+    for st_ in f['blocks'][bi]['stmts']:
+        if st_['k'] == 'assign' and F.last_field(st_['place']) == (RRI, 'rrs_left') and _checked_dec(f, defs, st_['rv']):
+            return True         # checked_sub(1) is its own test: it yields no value to store when the count is 0
     for gi, b in F.blocks(f):
         t = b['term']
         if t['k'] != 'switch':
@@ -321,6 +338,14 @@ def none_rule(ctx, facts, cfg):
                         why.append('entered unconditionally from bb%d' % p)
                         continue
                     e = F.expr(f, defs, t['discr'])
+                    if e[0] == 'discr' and any(v == 0 and tb == bi for v, tb in t['targets']):
+                        # `match self.next_including_opt() { None => None, .. }`: the end of the walk reported by another step function is passed on
+                        rs0 = F.roots_place(f, defs, e[1])
+                        if rs0 and all(r[0] == 'call' and (str(r[1]).endswith('::next_including_opt') or str(r[1]).endswith('::maybe_skip_opt_section')
+                                                           or str(r[1]).endswith('DNSIterable>::next') or str(r[1]).endswith('::checked_sub')) for r in rs0):
+                            if all(not str(r[1]).endswith('::checked_sub') or (len(r[2]['args']) == 2 and F.expr(f, defs, r[2]['args'][1]) == ('const', 1)
+                                                                               and (F.is_load_of(F.expr(f, defs, r[2]['args'][0]), RRI, 'rrs_left'))) for r in rs0):
+                                continue
                     truth_here = (t['otherwise'] == bi and all(v == 0 for v, _ in t['targets'])) or any(v == 1 and tb == bi for v, tb in t['targets'])
                     zero = e[0] == 'binop' and ((e[1] == 'Eq' and e[3] == ('const', 0)) or (e[1] == 'Le' and e[3] == ('const', 0)) or (e[1] == 'Lt' and e[3] == ('const', 1)))
                     x = e[2] if zero else None
@@ -349,7 +374,7 @@ def none_rule(ctx, facts, cfg):
                 for w in why[:1]:
                     ctx.violation(rid, key, 'none@%s' % (st.get('at') or bi), 'the walk can end (return None) for a reason other than "no records left": %s; records present in the packet would not be visited' % w,
                                   site=st.get('at'), config=cfg)
-    if n < 7:
+    if n < 4:     # 7 on the pinned tree; `?` on an Option has no explicit None
         ctx.violation(rid, '<floor>', 'None exits', 'found %d None exits in the step functions, expected 7' % n, kind='below-floor')
 
 
